@@ -503,6 +503,11 @@ class ExprMixin:
             return self.obj_eq(l, r)
         if isinstance(l, ClassRef) and isinstance(r, ClassRef):
             return l.cinfo is r.cinfo
+        if isinstance(l, (SetVal, set, frozenset)) and isinstance(r, (SetVal, set, frozenset)) and (isinstance(l, SetVal) or isinstance(r, SetVal)):
+            li = l.items if isinstance(l, SetVal) else sorted(l, key=repr)
+            ri = r.items if isinstance(r, SetVal) else sorted(r, key=repr)
+            sub = lambda xs, ys: z3.And(*[B(self.contains(list(ys), x)) if not isinstance(self.contains(list(ys), x), bool) else z3.BoolVal(self.contains(list(ys), x)) for x in xs]) if xs else z3.BoolVal(True)
+            return z3.simplify(z3.And(sub(li, ri), sub(ri, li)))
         if isinstance(l, (str, int, bool, type(None), set, frozenset, dict)) and isinstance(r, (str, int, bool, type(None), set, frozenset, dict)):
             return l == r
         if l is NOTIMPL or r is NOTIMPL:
